@@ -35,6 +35,9 @@ type Program struct {
 	InScope map[*ssa.Function]bool   // function belongs to a scope package
 	byName  map[string]*ssa.Function // "pkg.(Recv).Name" / "pkg.Name" / with $n for anon
 	aliased map[*ssa.Function]bool   // functions registered under an upstream (reference) name
+	soleImpl map[*types.TypeName]*types.Named // unexported interface -> its only implementer (nil: none or several)
+	seamField  map[string]*seam // see seams.go
+	seamGlobal map[string]*seam
 }
 
 func loadProgram(repo string, goarch string) (*Program, error) {
@@ -348,6 +351,41 @@ func origin(fn *ssa.Function) *ssa.Function {
 		return o
 	}
 	return fn
+}
+
+// soleImplementer: for a method call through an unexported interface declared in the library that exactly one
+// concrete library type implements, that type's method (nil otherwise).
+func (p *Program) soleImplementer(t types.Type, m *types.Func) *ssa.Function {
+	n, ok := t.(*types.Named)
+	if !ok || n.Obj().Pkg() == nil || n.Obj().Exported() || !strings.HasPrefix(n.Obj().Pkg().Path(), modPath) {
+		return nil
+	}
+	if _, isIface := n.Underlying().(*types.Interface); !isIface {
+		return nil
+	}
+	key := n.Origin().Obj()
+	if p.soleImpl == nil {
+		p.soleImpl = map[*types.TypeName]*types.Named{}
+	}
+	impl, seen := p.soleImpl[key]
+	if !seen {
+		if impls := p.Implementers(n.Origin()); len(impls) == 1 {
+			impl = impls[0]
+		}
+		p.soleImpl[key] = impl
+	}
+	if impl == nil {
+		return nil
+	}
+	ms := types.NewMethodSet(types.NewPointer(impl))
+	for i := 0; i < ms.Len(); i++ {
+		if ms.At(i).Obj().Name() == m.Name() {
+			if f, isF := ms.At(i).Obj().(*types.Func); isF {
+				return p.Prog.FuncValue(f.Origin())
+			}
+		}
+	}
+	return nil
 }
 
 // TargetOf resolves a synthetic bound-method wrapper (x.m used as a value) to the method m; other functions to
